@@ -236,12 +236,15 @@ def matchesFilter : Name → Bool
   | .junk _ => true
   | .foreign _ => false
 
+/-- Date scheme clean-up keeps everything but the files of the family dated today -/
+def keepDate (today : Int) : Name → Bool
+  | .file (some d) _ => decide (d ≠ today)
+  | _ => true
+
 def clean (sch : Scheme) (today : Int) (fs : FS) : FS :=
   match sch with
   | .index => fs.filter (fun p => !matchesFilter p.1)
-  | .date => fs.filter (fun p => match p.1 with
-                                 | .file (some d) _ => decide (d ≠ today)
-                                 | _ => true)
+  | .date => fs.filter (fun p => keepDate today p.1)
   | .dateTime => fs
 
 def insDesc (e : FileInfo) : List FileInfo → List FileInfo
